@@ -170,8 +170,12 @@ def walkLoop (cfg : Cfg) (forest : List Node) : Nat → EvIter → List Anc → 
       | .exit => walkLoop cfg forest fuel it' ig.tail acc
       | .dir d info =>
         if decide (d.depth ≠ rootDepth) && skipEntry cfg ig d.path (d.path.getLast?.getD 0) d.view then
-          -- self.it.skip_current_dir(); self.ig = self.ig.add_child(..); continue
-          walkLoop cfg forest fuel { it' with wd := { it'.wd with s := it'.wd.s.pop it'.wd.follow } }
+          -- if descends { self.it.skip_current_dir() }; self.ig = self.ig.add_child(..); continue
+          -- (`descends`: not a directory on another device than the root under same_file_system — for those
+          -- walkdir pushed nothing and skip_current_dir would pop the parent's listing)
+          let descends := !(cfg.sameFs && decide (d.depth ≠ rootDepth) && !devOk it'.wd.rootDev info.dev)
+          walkLoop cfg forest fuel
+            { it' with wd := { it'.wd with s := if descends then it'.wd.s.pop it'.wd.follow else it'.wd.s } }
             ((info.ino, info.ign) :: ig) acc
         else
           walkLoop cfg forest fuel it' ((info.ino, info.ign) :: ig) (.entry d.path :: acc)
